@@ -2,6 +2,8 @@
     Statements only; proofs in Proofs/SuggestLaws.v (and C17's for what "folds to a constant" means). *)
 From Coq Require Import List ZArith NArith Bool.
 From RRSS Require Import Base.Outcome Base.Chars Base.F64 Base.F64Text Exec.Val Exec.Ops Front.Ast Analysis.Fold Lint.Lint Proofs.SuggestLaws.
+From Coq Require Import Floats.SpecFloat.
+From RRSS Require Import Proofs.DigitBound Proofs.DigitLaws.
 Import ListNotations.
 Open Scope N_scope.
 
@@ -81,4 +83,18 @@ Example C18_example :
   read_template (lit "* **********. ** *****") 0 [] = lit "10.25".
 Proof. vm_compute. split; reflexivity. Qed.
 
+(** for every number of the binary64 range (53-bit mantissa, exponent -1074..971: [bounded_in_range]) the
+    digits the printer produces are decimal digits ([shortest_digits_dec]: the one numeric fact, the printer's
+    estimate of the decimal exponent, is checked for all 2500 exponents of the range inside Coq), so the
+    template exists and spells exactly the numeral reported — no side condition on the text left *)
+Theorem C18_suggestion_spells_reported_value :
+  forall v t, f_in_range v -> has_poetic_spelling v = true ->
+  template_text (f64_display v) true = Ok t -> read_template t 0 [] = f64_display v.
+Proof. exact numeric_template_spells_value. Qed.
+
+Theorem C18_binary64_is_in_range :
+  forall m e, bounded prec emax m e = true -> in_range m e.
+Proof. exact bounded_in_range. Qed.
+
 Print Assumptions C18_template_spells_value.
+Print Assumptions C18_suggestion_spells_reported_value.
